@@ -5,6 +5,8 @@ RULES = {}  # prop -> list of (rule_id, title, fn, tiers)
 
 def rule(prop, rid, title, tier="quick"):
     def deco(fn):
+        if any(r[0] == rid for r in RULES.get(prop, [])):
+            raise RuntimeError("duplicate rule id %s" % rid)
         RULES.setdefault(prop, []).append((rid, title, fn, tier))
         return fn
     return deco
